@@ -23,8 +23,7 @@ global layout HeaderTagHeader is size == 8, align == 4;
 impl Header for HeaderTagHeader {
     open spec fn declared_total(&self) -> int { self.size as int }
     proof fn lemma_hdr_layout(&self) {}
-//@extract multiboot2-header/src/tags.rs :: impl Header for HeaderTagHeader :: fn payload_len
-//@  novis
+//@extractall multiboot2-header/src/tags.rs :: impl Header for HeaderTagHeader
 //@end
 }
 
@@ -81,9 +80,8 @@ impl Multiboot2BasicHeader {
 impl Header for Multiboot2BasicHeader {
     open spec fn declared_total(&self) -> int { self.length as int }
     proof fn lemma_hdr_layout(&self) {}
-//@extract multiboot2-header/src/header.rs :: impl Header for Multiboot2BasicHeader :: fn payload_len
-//@  novis
-//@  rewrite /size_of::<Self>\(\)/ => /mem::size_of::<Self>()/ x*
+//@extractall multiboot2-header/src/header.rs :: impl Header for Multiboot2BasicHeader
+//@  fn payload_len: rewrite /(?<![:\w])size_of::<Self>\(\)/ => /mem::size_of::<Self>()/ x*
 //@end
 }
 
